@@ -28,7 +28,8 @@ Ev == Trace[l]
 SetOf(q) == {q[i] : i \in 1 .. Len(q)}
 
 CfgOf(e) == [np |-> e.np, plen |-> e.plens, maxblk |-> e.maxblk, maxq |-> e.maxq, cb |-> e.cb,
-             nconn |-> e.nconn, impl |-> "loop", afsend |-> "all"]
+             nconn |-> e.nconn, impl |-> "loop", afsend |-> "all",
+             afcheck |-> "sent", shortread |-> "error", twophase |-> FALSE, bufs |-> "fresh"]
 
 TraceInit ==
     /\ l = 2 /\ viol = ""
@@ -41,7 +42,7 @@ Step(v) ==
     /\ viol' = v
     /\ (v = "" \/ PrintT("@@VIOL " \o ToString(l) \o " " \o v))
 
-Keep == UNCHANGED <<cfg, have, rvars, bad>>
+Keep == UNCHANGED <<cfg, have, rvars, xvars, bad>>
 IsConn(c) == c \in Conn
 
 TrReset == Ev.op = "Init" /\ ResetWith(CfgOf(Ev), SetOf(Ev.have)) /\ l' = l + 1 /\ viol' = ""
@@ -59,7 +60,16 @@ TrReject  == Ev.op = "Reject" /\ IsConn(Ev.c) /\ lopen[Ev.c] /\ ObsReject(Ev.c, 
 \* the session under test also DOWNLOADS (scenario family `grow`): the scripted feeders have handed over the last missing
 \* byte of piece Ev.i - the earliest moment at which rain can have verified it.  From here on a request for it may be
 \* answered with data (C03.notHeld), and a choked peer may get it iff it was granted (C03.choked, Granted).
-TrGot     == Ev.op = "Got" /\ Ev.i \in Piece /\ have' = have \cup {Ev.i} /\ UNCHANGED <<cfg, rvars, lvars, bad>> /\ Step("")
+TrGot     == Ev.op = "Got" /\ Ev.i \in Piece /\ have' = have \cup {Ev.i} /\ UNCHANGED <<cfg, rvars, xvars, lvars, bad>> /\ Step("")
+\* round 3 - the peer sent ITS OWN allowed-fast message for piece Ev.i (LSend of kind "peeraf"): it grants rain downloads
+\* from the peer and grants the peer nothing - the leecher's half (Granted = laf) does not change, so a later piece message
+\* for Ev.i to this choked peer is judged C03.choked unless rain itself granted the piece on this connection.
+TrPeerAF  == Ev.op = "PeerAF" /\ IsConn(Ev.c) /\ lopen[Ev.c] /\ UNCHANGED vars /\ Step("")
+\* round 3 - environment fault (Truncate / read error of Upload.tla): from here on the storage under piece Ev.i ends after Ev.k
+\* bytes, or fails.  The leecher's half does not change and NO obligation is relaxed: whatever rain still sends must be a full-length,
+\* correct answer (warm cache) - otherwise no message at all (C03.length / C03.content judge the piece messages that follow).
+TrFault   == Ev.op = "Fault" /\ Ev.i \in Piece /\ Ev.k >= 0 /\ Ev.k <= PLen(Ev.i)
+             /\ cut' = [cut EXCEPT ![Ev.i] = Ev.k] /\ UNCHANGED <<cfg, have, rvars, raf, hold, lvars, bad>> /\ Step("")
 \* messages without meaning for C03 (have-all / bitfield / extension handshake / keep-alive)
 TrOther   == Ev.op = "Other" /\ UNCHANGED vars /\ Step("")
 
@@ -85,7 +95,7 @@ TrReadAt ==
 TraceNext ==
     /\ l <= Len(Trace)
     /\ \/ TrReset \/ TrOpen \/ TrClosed \/ TrRequest \/ TrCancel \/ TrInterest \/ TrChoke \/ TrUnchoke
-       \/ TrAF \/ TrReject \/ TrOther \/ TrPiece \/ TrCrash \/ TrReadAt \/ TrGot
+       \/ TrAF \/ TrReject \/ TrOther \/ TrPiece \/ TrCrash \/ TrReadAt \/ TrGot \/ TrPeerAF \/ TrFault
 
 TraceSpec == TraceInit /\ [][TraceNext]_tvars
 
